@@ -563,9 +563,9 @@ Definition t_prepass (ver : version) (dbg : bool) (n : Z) (conflicting : option 
 (* ---------------------------------------------------------------- parse_line *)
 Record request := mkR { r_cmd : string; r_total : Z; r_args : parsed }.
 
-Definition parse_line (ver : version) (dbg : bool) (n : Z) (conflicting : option (Z -> ares bool))
-           (line : string) : res request :=
-  let args := words line in
+(* everything after the whitespace split *)
+Definition parse_args (ver : version) (dbg : bool) (n : Z) (conflicting : option (Z -> ares bool))
+           (args : list string) : res request :=
   match args with
   | [] => RErr E4 "E4 error: got an empty msg"
   | _ =>
@@ -580,6 +580,10 @@ Definition parse_line (ver : version) (dbg : bool) (n : Z) (conflicting : option
         end))
     end
   end.
+
+Definition parse_line (ver : version) (dbg : bool) (n : Z) (conflicting : option (Z -> ares bool))
+           (line : string) : res request :=
+  parse_args ver dbg n conflicting (words line).
 
 (* ---------------------------------------------------------------- state and abstract operations *)
 Record extops (CC : Type) := mkX {
